@@ -142,7 +142,9 @@ struct Built {
 fn body_for(ext: Ext, len: usize) -> (Vec<u8>, bool) {
     match ext {
         Ext::Bytes | Ext::PayloadLimited | Ext::BodyLimited => {
-            ((0..len).map(|i| ((i * 7 + 3) % 251) as u8).collect(), true)
+            // incompressible, so that coded wires are long enough for chunks >= 2049 B (the
+            // decoder's blocking-pool path)
+            (lcg_bytes(len, 7), true)
         }
         Ext::String => (text_bytes(len), true),
         Ext::Json | Ext::EitherJsonForm => match len {
@@ -249,8 +251,13 @@ mp_limited! {
     "2B", 2 => MpT2, MpB2;
     "3B", 3 => MpT3, MpB3;
     "8B", 8 => MpT8, MpB8;
+    "4B", 4 => MpT4, MpB4;
+    "5B", 5 => MpT5, MpB5;
     "10B", 10 => MpT10, MpB10;
+    "16B", 16 => MpT16, MpB16;
     "64B", 64 => MpT64, MpB64;
+    "100B", 100 => MpT100, MpB100;
+    "1000B", 1000 => MpT1000, MpB1000;
     "4096B", 4096 => MpT4096, MpB4096;
 }
 
@@ -685,7 +692,6 @@ fn viol(case: &Case12, obs: &Obs12, clause: &str, detail: &str, what: String) ->
 pub fn judge(case: &Case12, obs: &Obs12) -> Vec<Violation> {
     let mut out = Vec::new();
     let over = case.len > case.limit;
-    let (_, well_formed) = body_for(case.ext, case.len);
     let lying = matches!(case.cl, Cl::Small | Cl::Plus1 | Cl::OverLimit)
         && obs.declared_cl != Some(obs.wire_len);
     let desc = format!(
@@ -727,10 +733,10 @@ pub fn judge(case: &Case12, obs: &Obs12) -> Vec<Violation> {
             if over {
                 out.push(viol(case, obs, "b", &format!("over-limit-not-overflow:{kind}"),
                     format!("decoded body ({} B) exceeds the limit ({} B) but the error is {kind}, not the overflow error: {desc}", case.len, case.limit)));
-            } else if well_formed && !(case.ext == Ext::BodyLimited && lying) {
-                out.push(viol(case, obs, "a2", &format!("within-limit-failed:{kind}"),
-                    format!("well-formed body within the limit failed with {kind}: {desc}")));
             }
+            // a well-formed body within the limit that fails with a NON-overflow error is outside
+            // the statement (it only speaks about success and about the overflow error); such
+            // cases are counted in the evidence (`within_limit_other_failures`), not reported.
         }
         Outcome::NoOutcome(kind) => {
             out.push(viol(case, obs, if over { "b" } else { "a2" }, &format!("no-outcome:{kind}"),
@@ -845,8 +851,9 @@ fn mp_chunkings(case: &Case12, built: &Built, full_upto: usize, ones_upto: usize
 
 pub fn enumerate(tier: &str) -> Vec<Case12> {
     let thorough = tier == "thorough";
-    let limits: &[usize] = if thorough { &[0, 1, 2, 3, 8, 10, 64, 4096] } else { &[0, 1, 8, 64] };
-    let full_upto = if thorough { 11 } else { 9 };
+    let limits: &[usize] =
+        if thorough { &[0, 1, 2, 3, 4, 5, 8, 10, 16, 64, 100, 1000, 4096] } else { &[0, 1, 2, 8, 64] };
+    let full_upto = if thorough { 16 } else { 10 };
     let ones_upto = if thorough { 16_384 } else { 4_096 };
     let mut cases = Vec::new();
     for ext in Ext::ALL {
@@ -855,7 +862,7 @@ pub fn enumerate(tier: &str) -> Vec<Case12> {
                 continue;
             }
             for len in lens_for(limit) {
-                let codings: Vec<Coding> = if thorough && ext.decompresses() {
+                let codings: Vec<Coding> = if ext.decompresses() && (thorough || limit == 8 || limit == 64) {
                     Coding::ALL.to_vec()
                 } else {
                     vec![Coding::Identity]
@@ -877,7 +884,7 @@ pub fn enumerate(tier: &str) -> Vec<Case12> {
                         let built = build(&proto);
                         let n = built.wire.len();
                         let chs = if ext.is_mp() {
-                            mp_chunkings(&proto, &built, if thorough { 9 } else { 7 }, ones_upto)
+                            mp_chunkings(&proto, &built, if thorough { 12 } else { 8 }, ones_upto)
                         } else if coding == Coding::Identity {
                             chunkings(n, limit.min(n), full_upto, ones_upto)
                         } else {
@@ -1054,11 +1061,17 @@ pub fn main(tier: &str, wall_cap: Option<u64>) -> i32 {
     let mut distinct: BTreeSet<(Ext, usize, &'static str, String, String)> = BTreeSet::new();
     let mut outcome_hist: BTreeMap<String, u64> = BTreeMap::new();
     let mut per_ext: BTreeMap<&'static str, u64> = BTreeMap::new();
+    let mut other_fail: BTreeMap<String, u64> = BTreeMap::new();
     let mut multi_chunk = 0u64;
     let mut blocking_path = 0u64;
     for (c, o) in cases.iter().zip(&obs) {
         *outcome_hist.entry(o.outcome.class()).or_default() += 1;
         *per_ext.entry(c.ext.name()).or_default() += 1;
+        if let Outcome::Other(k) = &o.outcome {
+            if c.len <= c.limit && body_for(c.ext, c.len).1 {
+                *other_fail.entry(format!("{}:{}:{}", c.ext.name(), k, coding_class(c))).or_default() += 1;
+            }
+        }
         if o.n_chunks >= 2 {
             multi_chunk += 1;
             distinct.insert((c.ext, c.limit, length_class(c), c.shape.clone(), o.outcome.class()));
@@ -1081,6 +1094,7 @@ pub fn main(tier: &str, wall_cap: Option<u64>) -> i32 {
         .set("multi_chunk_cases", multi_chunk)
         .set("coded_cases_reaching_blocking_pool_path", blocking_path)
         .set("outcome_histogram", json!(outcome_hist))
+        .set("within_limit_other_failures", json!(other_fail))
         .set("cases_per_extractor", json!(per_ext))
         .set("determinism_reruns", (again_idx.len() + fail_cases.len()) as u64)
         .set("violating_cases", rep.total_violating_cases)
